@@ -205,11 +205,19 @@ def _evaluate(sps, cache, dmg, order):
         for n in names:
             for via in ("statepoint", "cached_statepoint"):
                 p2 = signac.Project(d)
+                job = None
                 try:
                     job = p2.open_job(id=n)
                     val = job.statepoint() if via == "statepoint" else dict(job.cached_statepoint)
                 except Exception:
-                    continue
+                    if job is None:
+                        continue
+                    # a second look through the SAME handle must not succeed with a wrong value either
+                    try:
+                        val = job.statepoint() if via == "statepoint" else dict(job.cached_statepoint)
+                        via = via + "/second-access-on-same-handle"
+                    except Exception:
+                        continue
                 try:
                     ok = canon.job_id(canon.plain(val)) == n
                 except Exception:
